@@ -181,6 +181,10 @@ func (a *Actor) highestKnownQC() hotstuff.QuorumCert {
 }
 
 func (a *Actor) sign(me *Stack, m []byte) hotstuff.QuorumSignature {
+	if a.cl.ActorSigns[string(m)] == nil {
+		a.cl.ActorSigns[string(m)] = map[hotstuff.ID]bool{}
+	}
+	a.cl.ActorSigns[string(m)][me.ID] = true
 	s, err := me.base.Sign(m) // not through the tap: the actor's signatures are not honest signatures
 	if err != nil {
 		panic(err)
@@ -230,6 +234,7 @@ const (
 	AForgedTC             // a timeout certificate from the timeout signatures seen for a view (possibly a sub-quorum), or relabelled
 	AProposeSkip          // template: in a view the actor leads, certificate = the highest known QC, parent = an OLDER block (an ancestor of the certified block, or any other block)
 	AProposeStaleQC       // template: in a view the actor leads, parent = the newest block, certificate = an older valid QC (fork from an ancestor, like byzantine.Fork)
+	AProposeOnForged      // template: a hidden block X (old parent, real old certificate) that nobody votes for, a FORGED certificate for X (repeated signer / the actor's signatures only / another block's signatures), and the proposal Y = (parent X, forged certificate)
 	aCount
 )
 
@@ -240,7 +245,7 @@ func (a *Actor) Act(A, B, C int) {
 	me := a.self(C)
 	if cl.Cfg.ActorAuto {
 		switch mod(A, aCount) {
-		case AProposeSkip, AProposeStaleQC, AEquivocate, AProposeWeird:
+		case AProposeSkip, AProposeStaleQC, AEquivocate, AProposeWeird, AProposeOnForged:
 			a.armed = &Step{K: KActor, A: mod(A, aCount), B: B, C: C}
 			return
 		}
@@ -631,8 +636,56 @@ func (a *Actor) proposeMaybeDeviating(me *Stack, qc hotstuff.QuorumCert, v hotst
 				parent = qc.BlockHash()
 			}
 		case AProposeWeird:
+			if mod(dev.C, 4) == 1 && cb != nil {
+				v = cb.View() // a second block in the view of the certified block it extends
+				break
+			}
 			parent = cl.AllBlk[mod(dev.B, len(cl.AllBlk))].Hash()
 			qc = a.QCs[mod(dev.C, len(a.QCs))]
+		case AProposeOnForged:
+			if cb == nil || v < 3 {
+				break
+			}
+			// hidden block X on an old branch point
+			old := cb
+			for k := 1 + mod(dev.B, 4); k > 0; k-- {
+				if p := a.blockOf(old.Parent()); p != nil {
+					old = p
+				}
+			}
+			oldQC := a.QCs[0]
+			for _, c := range a.QCs {
+				if _, forged := a.Forged[string(c.ToBytes())]; !forged && c.BlockHash() == old.Hash() && c.View() == old.View() {
+					oldQC = c
+				}
+			}
+			if oldQC.BlockHash() != old.Hash() {
+				break
+			}
+			x := hotstuff.NewBlock(old.Hash(), oldQC, a.batch(), v-1, me.ID)
+			cl.register(x)
+			var fsig hotstuff.QuorumSignature
+			switch mod(dev.C, 3) {
+			case 0:
+				fsig = repeat(a.sign(me, x.ToBytes()), cl.Quorum())
+			case 1:
+				var sigs []hotstuff.QuorumSignature
+				for _, o := range a.stacks {
+					sigs = append(sigs, a.sign(o, x.ToBytes()))
+				}
+				fsig = sigs[0]
+				if len(sigs) >= 2 {
+					if c, err := me.base.Combine(sigs...); err == nil {
+						fsig = c
+					}
+				}
+			default:
+				fsig = qc.Signature() // a real quorum's signatures, over another block
+			}
+			fqc := hotstuff.NewQuorumCert(fsig, x.View(), x.Hash())
+			a.Forged[string(fqc.ToBytes())] = "forged-for-hidden-block"
+			a.addQC(fqc)
+			qc, parent = fqc, x.Hash()
 		case AEquivocate:
 			b1 := hotstuff.NewBlock(parent, qc, a.batch(), v, me.ID)
 			b2 := hotstuff.NewBlock(parent, qc, a.batch(), v, me.ID)
